@@ -462,7 +462,8 @@ Definition init_ok (a : account) (ct : N) (o : out) : bool :=
   | OChoose ms => within ct a && list_eqb mech_eqb ms (offered_spec a)
                   && negb (mfa_configured a && mem_mech MPassword ms)
                   && negb (match ms with [] => true | _ => false end)
-  | ODenied _ => true
+  | ODenied RExpired => negb (within ct a)
+  | ODenied RInvalidCredState => within ct a && (match offered_spec a with [] => true | _ => false end)
   | _ => false
   end.
 
